@@ -129,6 +129,11 @@ def build(cfg, values=None):
             Kn = p1.calc_k0(c=c0, nx=nq, ny=nq, NLgeom=False, silent=True).todict()
             for k in sorted(set(Ka) | set(Kn)):
                 obs.append(('k0-numeric-vs-analytic[%d,%d]' % k, Kn.get(k, 0), Ka.get(k, 0)))
+            if cfg.get('kT'):
+                # the tangent at the undeformed state is the (analytical) linear stiffness matrix  (C08 clause; exact Gauss rule)
+                KT = p1.calc_kT(c=c0, nx=nq, ny=nq, silent=True).todict()
+                for k in sorted(set(Ka) | set(KT)):
+                    obs.append(('kT-at-undeformed-state-vs-analytic-k0[%d,%d]' % k, KT.get(k, 0), Ka.get(k, 0)))
             if cfg.get('kG'):
                 # state-based kG at a state of uniform membrane stress == constant-load kG0: with c=0 both vanish; here the
                 # linear membrane state u = ex*x is not in the restrained basis in general, so only the zero state is compared
@@ -318,6 +323,9 @@ def configs(tier, seed):
     mn = (2, 2)
     for which in ('k0', 'kG0', 'kM'):
         out.append({'rel': 'a', 'm': 2, 'n': 2 if which != 'k0' else 1, 'which': which, 's': 2, 'group': '(a) cone(0)=cylinder:%s' % which})
+        if which == 'k0':
+            # two terms along y: the terms with one y-derivative on either function (int g_A' g_B against int g_A g_B') differ only then
+            out.append({'rel': 'a', 'm': 1, 'n': 2, 'which': which, 's': 1, 'group': '(a) cone(0)=cylinder:%s' % which, 'timeout_ms': 180000})
         if not quick:
             out.append({'rel': 'a', 'm': 2, 'n': 2, 'which': which, 's': 3, 'group': '(a) cone(0)=cylinder:%s' % which})
     for which in ('k0', 'kG0', 'kM', 'kAx', 'kAy', 'cA'):
